@@ -119,7 +119,8 @@ variable {X : SParams}
 
 /-- what the nested parser of an `insert_as_block` row is known to do (induction hypothesis) -/
 def BodyRel (body : List Event) : Prop :=
-  ∀ (P : Params) (X : SParams) (s₁ s₂ : St), P.Ok → Sim P X s₁ s₂ → X.F = [] → CL P s₁ → SB s₁ → RV s₁ →
+  ∀ (P : Params) (X : SParams) (s₁ s₂ : St), P.Ok → Sim P X s₁ s₂ → X.F = [] → X.nmAll = true →
+    CL P s₁ → SB s₁ → RV s₁ →
     rwp (steps body) (steps body) s₁ s₂ (fun _ t₁ _ t₂ => Sim P X t₁ t₂ ∧ Eff P s₁ t₁)
 
 /-- the state in which the nested parser starts -/
@@ -169,7 +170,7 @@ theorem insert_rel (ok : P.Ok) {s₁ s₂ : St} (h : Sim P X s₁ s₂) (r : Row
     · simp only [hjs, if_false] at hg
       have := (Array.getElem?_eq_some_iff.mp hg).1
       omega
-  have ss' : SSim (P.restrict s₁.nodes.size s₁.groups.size u₁ u₂) ⟨[], []⟩ u₁ u₂ := by
+  have ss' : SSim (P.restrict s₁.nodes.size s₁.groups.size u₁ u₂) ⟨[], [], true, []⟩ u₁ u₂ := by
     rw [← hu₁, ← hu₂]
     unfold enterSt
     constructor
@@ -189,6 +190,7 @@ theorem insert_rel (ok : P.Ok) {s₁ s₂ : St} (h : Sim P X s₁ s₂) (r : Row
     · intro p hp; simp at hp
     · intro p hp; simp at hp
     · intro x _; simp [lookupIn]
+    · intro _ x _; simp [lookupIn]
     · intro p hp; simp at hp
   have cl' : CL (P.restrict s₁.nodes.size s₁.groups.size u₁ u₂) u₁ := by
     rw [← hu₁]
@@ -212,7 +214,7 @@ theorem insert_rel (ok : P.Ok) {s₁ s₂ : St} (h : Sim P X s₁ s₂) (r : Row
     unfold enterSt
     intro p hp; simp at hp
   rw [rwp_bind]
-  refine rwp_mono (hbody _ _ u₁ u₂ (ok.restrict _ _ _ _) ⟨a', ss'⟩ rfl cl' sb' rv') ?_
+  refine rwp_mono (hbody _ _ u₁ u₂ (ok.restrict _ _ _ _) ⟨a', ss'⟩ rfl rfl cl' sb' rv') ?_
   intro _ v₁ _ v₂ ⟨hv, hefn⟩
   have hvsz : s₁.groups.size + 1 ≤ v₁.groups.size := by
     have := hefn.hk.2.2
